@@ -1030,10 +1030,14 @@ def _begin_file(
 ) -> None:
     """
     The file generated for a type must not depend on the files generated before it: stateful post-processors start
-    over for each file.
+    over for each file, and templates pulled in with ``{% import %}`` / ``{% from ... import %}`` are evaluated again
+    (Jinja keeps the module of an imported template for the life of the environment, including names its top level
+    obtained from ``to_template_unique_name`` while an earlier file was rendered).
     """
-    del env
     for post_processor in post_processors or []:
         reset = getattr(post_processor, "reset", None)
         if callable(reset):
             reset()
+    if getattr(env, "cache", None) is not None:
+        for cached_template in env.cache.values():
+            cached_template._module = None  # pylint: disable=protected-access
